@@ -42,7 +42,14 @@ inline VKind kind_of(int f) {
     default: return K_AFLOAT;
   }
 }
+// per-case naming / mounting mode (set from the AppSpec at the start of every run and by AppSpec::describe):
+// short_names: the ports other ports refer to have one-letter names (preset->q, ri->i, rt->t, en->e);
+// nested: the whole application is mounted one level down ("/top/..."), so that its sub-trees sit at depth 2
+struct Mode { bool short_names = false, nested = false; };
+inline Mode &mode() { static Mode m; return m; }
+inline std::string top() { return mode().nested ? "/top" : ""; }
 inline const char *name_of(int f) {
+  if (mode().short_names) { if (f == 0) return "q"; if (f == 1) return "i"; if (f == 4) return "t"; if (f == 10) return "e"; }
   static const char *r[] = {"preset", "ri", "rj", "rf", "rt", "ro", "rc", "rs", "ra", "rfa", "en", "vp", "rb"};
   static const char *s[] = {"si", "sf", "st", "so", "ss", "sa", "on", "sj", "sv"};
   return f < NROOT ? r[f] : s[f - SI];
@@ -113,10 +120,18 @@ struct AppSpec {
   bool sub_en_by = false, psub_en_by = false, subs_en_by = false;   // rRecur*(x, rEnabledBy(en)) with 'en' as sibling
   bool self_on = false;                                             // rSelf(Sub, rEnabledBy(on)) in the sub table
   bool ptr_port = false;                                            // the "sub:" pointer port of rRecur
-  template <class A> void io(A &a) { a(root)(sub)(has_sub)(has_psub)(has_subs)(psub_null)(sub_en_by)(psub_en_by)(subs_en_by)(self_on)(ptr_port); }
+  bool short_names = false, nested = false;                         // see Mode
+  // format note: short_names / nested travel in bit 1 of the has_sub / has_psub integers (older case files hold 0/1 there)
+  template <class A> void io(A &a) {
+    int hs = (has_sub ? 1 : 0) + (short_names ? 2 : 0), hp = (has_psub ? 1 : 0) + (nested ? 2 : 0);
+    a(root)(sub)(hs)(hp)(has_subs)(psub_null)(sub_en_by)(psub_en_by)(subs_en_by)(self_on)(ptr_port);
+    has_sub = hs & 1; short_names = (hs & 2) != 0; has_psub = hp & 1; nested = (hp & 2) != 0;
+  }
+  void set_mode() const { mode().short_names = short_names; mode().nested = nested; }
   const PSpec *find(const std::vector<PSpec> &v, int f) const { for (auto &p : v) if (p.field == f) return &p; return nullptr; }
   std::string describe() const {
-    std::string d = "root{";
+    set_mode();
+    std::string d = std::string(nested ? "mounted at /top " : "") + "root{";
     auto one = [&](const PSpec &p) {
       std::string s = std::string(name_of(p.field)) + spec_of(p.field);
       if (p.has_range) s += "[" + std::to_string(p.mn) + ".." + std::to_string(p.mx) + "]";
@@ -175,7 +190,7 @@ inline std::string meta_of(const PSpec &p) {
   for (size_t k = 0; k < p.opts.size(); k++) map("map " + std::to_string(k), p.opts[k]);
   if (p.has_default) {
     if (p.depends) {
-      map("default depends", "preset");
+      map("default depends", name_of(PRESET));
       for (int k = 0; k < 3; k++) if (p.has_preset[(size_t)k]) map("default " + std::to_string(k), spell(p.dflt[(size_t)k + 1], p));
     }
     map("default", spell(p.dflt[0], p));
@@ -270,7 +285,8 @@ struct App {
   AppSpec spec;
   std::vector<std::unique_ptr<char[]>> blocks;
   std::vector<std::string> names;
-  std::unique_ptr<pt::DynPorts> subports, rootports;
+  std::unique_ptr<pt::DynPorts> subports, rootports, outerports;
+  rtosc::Ports &saveroot() { return spec.nested ? *outerports : *rootports; }   // what savefiles, loads and messages address
   Root root;
   Sub psub_obj;
   const char *add_block(const std::string &m) {
@@ -281,6 +297,7 @@ struct App {
   }
   static std::string en_by(const char *who) { return std::string(":enabled by") + std::string(1, '\0') + "=" + who + std::string(1, '\0'); }
   explicit App(const AppSpec &s) : spec(s) {
+    spec.set_mode();
     // case files written when the int arrays had 4 or 8 elements: extend their defaults to 12 by repeating the last one
     for (auto *v : {&spec.root, &spec.sub})
       for (auto &p : *v)
@@ -295,18 +312,28 @@ struct App {
     for (auto &p : spec.root) { names.push_back(std::string(name_of(p.field)) + spec_of(p.field)); rv.push_back(rtosc::Port{names.back().c_str(), add_block(meta_of(p)), nullptr, field_cb(p.field)}); }
     std::string doc = std::string(":documentation") + std::string(1, '\0') + "=sub-tree" + std::string(1, '\0');
     if (spec.has_sub) {
-      rv.push_back(rtosc::Port{"sub/", add_block((spec.sub_en_by ? en_by("en") : std::string()) + doc), subports.get(), cb_sub()});
+      rv.push_back(rtosc::Port{"sub/", add_block((spec.sub_en_by ? en_by(name_of(EN)) : std::string()) + doc), subports.get(), cb_sub()});
       if (spec.ptr_port) rv.push_back(rtosc::Port{"sub:", add_block(std::string(":internal") + std::string(1, '\0') + doc), nullptr, cb_subptr()});
     }
-    if (spec.has_psub) rv.push_back(rtosc::Port{"psub/", add_block((spec.psub_en_by ? en_by("en") : std::string()) + doc), subports.get(), cb_psub()});
-    if (spec.has_subs) rv.push_back(rtosc::Port{"subs#3/", add_block((spec.subs_en_by ? en_by("en") : std::string()) + doc), subports.get(), cb_subs()});
+    if (spec.has_psub) rv.push_back(rtosc::Port{"psub/", add_block((spec.psub_en_by ? en_by(name_of(EN)) : std::string()) + doc), subports.get(), cb_psub()});
+    if (spec.has_subs) rv.push_back(rtosc::Port{"subs#3/", add_block((spec.subs_en_by ? en_by(name_of(EN)) : std::string()) + doc), subports.get(), cb_subs()});
     rootports.reset(new pt::DynPorts(rv));
+    if (spec.nested) {
+      pt::DynPorts *inner = rootports.get();
+      std::vector<rtosc::Port> ov;
+      ov.push_back(rtosc::Port{"top/", add_block(doc), inner, [inner](const char *m, rtosc::RtData &d) {
+        while (*m && *m != '/') ++m;
+        if (*m) ++m;
+        inner->dispatch(m, d);
+      }});
+      outerports.reset(new pt::DynPorts(ov));
+    }
     if (spec.has_psub && !spec.psub_null) root.psub = &psub_obj;
     reset_to_defaults();
   }
   void attach() { Sub::ports.p = subports.get(); }
   std::vector<Sub *> subs() { std::vector<Sub *> v; if (spec.has_sub) v.push_back(&root.sub); if (spec.has_psub && root.psub) v.push_back(root.psub); if (spec.has_subs) for (int k = 0; k < 3; k++) v.push_back(&root.subs[k]); return v; }
-  std::vector<std::string> sub_prefixes() { std::vector<std::string> v; if (spec.has_sub) v.push_back("/sub/"); if (spec.has_psub && root.psub) v.push_back("/psub/"); if (spec.has_subs) for (int k = 0; k < 3; k++) v.push_back("/subs" + std::to_string(k) + "/"); return v; }
+  std::vector<std::string> sub_prefixes() { std::vector<std::string> v; if (spec.has_sub) v.push_back(top() + "/sub/"); if (spec.has_psub && root.psub) v.push_back(top() + "/psub/"); if (spec.has_subs) for (int k = 0; k < 3; k++) v.push_back(top() + "/subs" + std::to_string(k) + "/"); return v; }
   // a freshly default-initialised instance: every parameter with a default holds it (preset default first)
   void reset_to_defaults() {
     const PSpec *pp = spec.find(spec.root, PRESET);
@@ -323,18 +350,23 @@ struct App {
   }
   // application semantics: a new preset resets every parameter whose default depends on it
   // and a parameter that declares rDepends(x) is reset when x changes (transitively)
-  void on_changed(const char *loc) {
-    bool ri_changed = !strcmp(loc, "/ri");
-    if (!strcmp(loc, "/preset"))
+  void on_changed(const char *loc_) {
+    std::string t = top();
+    if (!t.empty() && !strncmp(loc_, t.c_str(), t.size())) loc_ += t.size();
+    const std::string l = loc_;
+    auto is = [&](int f) { return l == std::string("/") + name_of(f); };
+    bool ri_changed = is(RI);
+    if (is(PRESET))
       for (auto &p : spec.root) if (p.has_default && p.depends) { set_root(root, p.field, p.default_for(root.preset)); if (p.field == RI) ri_changed = true; }
     if (ri_changed)
       for (auto &p : spec.root) if (p.has_default && p.depends_on == RI) set_root(root, p.field, p.default_for(root.preset));
-    if (!strcmp(loc, "/rt"))
+    if (is(RT))
       for (auto &p : spec.root) if (p.has_default && p.depends_on2 == RT) set_root(root, p.field, p.default_for(root.preset));
     // switching 'en' re-initialises the sub-trees it enables (rRecur*(x, rEnabledBy(en))): their parameters return to the defaults
-    if (!strcmp(loc, "/en")) {
+    if (is(EN)) {
       std::vector<Sub *> ss = subs();
       std::vector<std::string> pre = sub_prefixes();
+      for (auto &q : pre) q = q.substr(t.size());
       for (size_t k = 0; k < ss.size(); k++) {
         bool by_en = (pre[k] == "/sub/" && spec.sub_en_by) || (pre[k] == "/psub/" && spec.psub_en_by) || (pre[k].compare(0, 5, "/subs") == 0 && spec.subs_en_by);
         if (!by_en) continue;
@@ -351,7 +383,7 @@ struct App {
     memset(loc, 0, sizeof loc);
     rtosc::RtData d;
     d.obj = &root; d.loc = loc; d.loc_size = sizeof loc;
-    rootports->dispatch(b.data(), d, true);
+    saveroot().dispatch(b.data(), d, true);
     hook().fn = nullptr;
   }
 };
@@ -428,6 +460,9 @@ inline PSpec gen_pspec(int f, bool may_depend) {
 }
 inline AppSpec gen_spec() {
   AppSpec s;
+  s.short_names = vf::chance(20);
+  s.nested = vf::chance(20);
+  s.set_mode();
   const bool rich = vf::chance(8);   // an application with every kind of parameter and every kind of sub-tree (savefiles of 40..70 lines)
   auto maybe = [&](int pct) { return rich || vf::chance(pct); };
   bool presets = maybe(60);
@@ -469,7 +504,7 @@ struct Set {
   bool by_symbol = false;
   template <class A> void io(A &a) { a(target)(field)(v)(idx)(by_symbol); }
 };
-inline std::string prefix_of(int target) { return target == 0 ? "/" : target == 1 ? "/sub/" : target == 2 ? "/psub/" : "/subs" + std::to_string(target - 3) + "/"; }
+inline std::string prefix_of(int target) { return top() + (target == 0 ? "/" : target == 1 ? "/sub/" : target == 2 ? "/psub/" : "/subs" + std::to_string(target - 3) + "/"); }
 inline std::string encode_set(const Set &s, const PSpec &p) {
   std::string addr = prefix_of(s.target) + name_of(s.field);
   refosc::Val a;
@@ -531,10 +566,10 @@ inline void model_apply(App &m, const Set &s) {
     bool rt_changes = s.field == RT && get_root(m.root, RT).i != cur.i;
     bool en_changes = s.field == EN && get_root(m.root, EN).i != cur.i;
     set_root(m.root, s.field, cur);
-    if (s.field == PRESET) m.on_changed("/preset");
-    if (s.field == RI) m.on_changed("/ri");
-    if (rt_changes) m.on_changed("/rt");
-    if (en_changes) m.on_changed("/en");
+    if (s.field == PRESET) m.on_changed((std::string("/") + name_of(PRESET)).c_str());
+    if (s.field == RI) m.on_changed((std::string("/") + name_of(RI)).c_str());
+    if (rt_changes) m.on_changed((std::string("/") + name_of(RT)).c_str());
+    if (en_changes) m.on_changed((std::string("/") + name_of(EN)).c_str());
   } else {
     Sub *sub = s.target == 1 ? &m.root.sub : s.target == 2 ? m.root.psub : &m.root.subs[s.target - 3];
     if (!sub) return;
@@ -548,12 +583,13 @@ inline std::string compare(App &a, App &b, bool only_saved_scope, const char *wh
   for (auto &p : a.spec.root) {
     if (only_saved_scope && !p.has_default) continue;
     if (!get_root(a.root, p.field).eq(get_root(b.root, p.field), kind_of(p.field)))
-      return std::string(what) + ": /" + name_of(p.field) + " is " + get_root(a.root, p.field).show(kind_of(p.field)) + ", expected " + get_root(b.root, p.field).show(kind_of(p.field));
+      return std::string(what) + ": " + top() + "/" + name_of(p.field) + " is " + get_root(a.root, p.field).show(kind_of(p.field)) + ", expected " + get_root(b.root, p.field).show(kind_of(p.field));
   }
   std::vector<Sub *> sa = a.subs(), sb = b.subs();
   std::vector<std::string> pre = a.sub_prefixes();
   for (size_t k = 0; k < sa.size(); k++) {
-    bool by_en = (pre[k] == "/sub/" && a.spec.sub_en_by) || (pre[k] == "/psub/" && a.spec.psub_en_by) || (pre[k].compare(0, 5, "/subs") == 0 && a.spec.subs_en_by);
+    const std::string q = pre[k].substr(top().size());
+    bool by_en = (q == "/sub/" && a.spec.sub_en_by) || (q == "/psub/" && a.spec.psub_en_by) || (q.compare(0, 5, "/subs") == 0 && a.spec.subs_en_by);
     bool disabled = (by_en && !b.root.en) || (a.spec.self_on && !sb[k]->on);
     for (auto &p : a.spec.sub) {
       if (only_saved_scope && !p.has_default) continue;
@@ -581,7 +617,7 @@ inline int load(App &a, const std::string &file, const char *appname = "genapp")
   a.attach();
   hook().fn = [&a](const char *loc) { a.on_changed(loc); };
   const rtosc_version ver = {1, 2, 3};
-  int rv = rtosc::load_from_file(file.c_str(), *a.rootports, &a.root, appname, ver);
+  int rv = rtosc::load_from_file(file.c_str(), a.saveroot(), &a.root, appname, ver);
   hook().fn = nullptr;
   return rv;
 }
@@ -589,6 +625,6 @@ inline std::string save(App &a) {
   a.attach();
   std::set<std::string> written;
   const rtosc_version ver = {1, 2, 3};
-  return rtosc::save_to_file(*a.rootports, &a.root, "genapp", ver, written, {});
+  return rtosc::save_to_file(a.saveroot(), &a.root, "genapp", ver, written, {});
 }
 }  // namespace ga
